@@ -44,6 +44,8 @@ T("ampm", [F("Y", 4), "-", F("M", 2), "-", F("D", 2), " ", F("H", 2), ":", F("m"
 T("ampm-am-seconds", [F("Y", 4), "-", F("M", 2), "-", F("D", 2), " ", F("H", 2), ":", F("m", 2), ":", F("s", 2), "am"], ampm=0)
 T("hms-labels", [F("Y", 4), "-", F("M", 2), "-", F("D", 2), " ", F("h", 2), "h", F("m", 2), "m", F("s", 2), "s"])
 T("two-digit-year-us", [F("M", 2), "/", F("D", 2), "/", F("y", 2)])
+T("two-digit-year-first", [F("y", 2), "-", F("M", 2), "-", F("D", 2)], yearfirst=True)
+T("two-digit-year-dayfirst", [F("D", 2), ".", F("M", 2), ".", F("y", 2)], dayfirst=True)
 for i, mn in enumerate(MONTHS):
     T("ctime-%s" % mn, ["Thu ", mn, " ", F("D", 2), " ", F("h", 2), ":", F("m", 2), ":", F("s", 2), " ", F("Y", 4)], month=i + 1, weekday_literal=True)
     T("rfc2822-%s" % mn, [F("D", 2), " ", mn, " ", F("Y", 4), " ", F("h", 2), ":", F("m", 2), ":", F("s", 2), " +0130"], month=i + 1, tz="fixed", fixed_off=5400)
